@@ -16,7 +16,8 @@ def run_wp(ck, names, ms, prefix=""):
             ck.oblig(prefix + oid, "P", verdict, be, dt, "axiom schema for sum(): congruence proved by induction (base/step)")
         ck._sum_lemmas_done = True
     from spec import runner
-    results = runner.pmap(wp.verify_plain, [(n, ms) for n in names], jobs=min(8, len(names)), timeout=max(180, ms // 1000 * 12))
+    big = max([ms] + [W[n].get("ms", 0) for n in names])
+    results = runner.pmap(wp.verify_plain, [(n, ms) for n in names], jobs=min(8, len(names)), timeout=max(180, big // 1000 * 12))
     for name, (pst, r) in zip(names, results):
         c = W[name]
         ck.under_contract(c["target"])
